@@ -35,28 +35,44 @@ Theorem C15_binary_adds_one_reference : forall c lo hi opn l r p out p',
   (is_ident l = true -> ns_count l = 0) -> (is_ident r = true -> ns_count r = 0) ->
   binary_transform c (Node (K KBin lo hi) [opn; l; r]) p = (Some out, p') ->
   ns_count out = 1 + ns_count (Node (K KBin lo hi) [opn; l; r]).
-Proof. exact (binary_transform_ns (stop:=no_stop) (kappa:=1)). Qed.
+Proof.
+  intros c lo hi opn l r p out p'.
+  exact (binary_transform_ns (stop:=no_stop) (kappa:=1) (okname:=fun _ => True) (fun _ _ _ => eq_refl) c lo hi opn l r p out p' I).
+Qed.
 Print Assumptions C15_binary_adds_one_reference.
 
 Theorem C15_template_adds_one_reference : forall c e p out p',
   template_transform c e p = (Some out, p') -> ns_count out = 1 + ns_count e.
-Proof. exact (template_transform_ns (stop:=no_stop) (kappa:=1)). Qed.
+Proof.
+  intros c e p out p'.
+  exact (template_transform_ns (stop:=no_stop) (kappa:=1) (okname:=fun _ => True) (fun _ _ _ => eq_refl) c e p out p' I).
+Qed.
 Print Assumptions C15_template_adds_one_reference.
 
 Theorem C15_call_adds_one_reference : forall c lo hi cx callee args targs p out tag p',
+  is_ns_member callee = false ->          (* the callee is not itself a member of the hook namespace *)
   (ns_count cx = 0 /\ ns_count targs = 0) ->
   (is_ident callee = true -> ns_count callee = 0) ->
   call_transform c (Node (K KCall lo hi) [cx; callee; Node Lst args; targs]) p = (Some (out, tag), p') ->
   ns_count out = 1 + ns_count (Node (K KCall lo hi) [cx; callee; Node Lst args; targs]).
-Proof. exact (call_transform_ns (stop:=no_stop) (kappa:=1)). Qed.
+Proof.
+  intros c lo hi cx callee args targs p out tag p'.
+  exact (call_transform_ns (stop:=no_stop) (kappa:=1) (okname:=fun _ => True) (fun _ _ _ => eq_refl)
+           c lo hi cx callee args targs p out tag p' (fun _ _ _ => I)).
+Qed.
 Print Assumptions C15_call_adds_one_reference.
 
 Theorem C15_compound_assignment_adds_one_reference : forall c lo hi opn lhs rhs p out p',
+  is_ns_member (if is_kind KParen lhs then peel_parens lhs else lhs) = false ->   (* nor is the target *)
   ns_count opn = 0 -> (is_ident rhs = true -> ns_count rhs = 0) ->
   (forall lhs' hoisted p0, hoist_target c lhs (lo, hi) acc0 p = (lhs', hoisted, p0) -> ns_count lhs' = 0) ->
   assign_transform c (Node (K KAssign lo hi) [opn; lhs; rhs]) p = (Some out, p') ->
   ns_count out = 1 + ns_count (Node (K KAssign lo hi) [opn; lhs; rhs]).
-Proof. exact (assign_transform_ns (stop:=no_stop) (kappa:=1)). Qed.
+Proof.
+  intros c lo hi opn lhs rhs p out p'.
+  exact (assign_transform_ns (stop:=no_stop) (kappa:=1) (okname:=fun _ => True) (fun _ _ _ => eq_refl)
+           c lo hi opn lhs rhs p out p' I).
+Qed.
 Print Assumptions C15_compound_assignment_adds_one_reference.
 
 (** ** Global statement for one block region.  For every configuration whose verbosity is not OFF,
